@@ -30,7 +30,7 @@ def main():
             'replay_cmd_template': './check %s --replay {path}' % pid,
             'engine': 'cxx2c+dfcc',
             'level_claimed': {
-                'category': 'proof',
+                'category': p.get('level', 'proof'),
                 'text': 'Contract-based deductive verification of the real functions: every run re-extracts the C++ of /repo '
                         'from clang\'s AST, lowers it mechanically to C, weaves the contracts of units ' + ', '.join(p['units']) +
                         ' and discharges every obligation with goto-instrument --dfcc + cbmc, function by function, for all inputs '
